@@ -139,9 +139,13 @@ def run(eng, R):
         ok = common.like_any(src, ["_g = self.goodness_of_fit", "_n = self.ndf", "_result_dict['gof/ndf'] = _g if _g is None else _g / _n"],
                              ["_g = self.goodness_of_fit", "_n = self.ndf", "_result_dict['gof/ndf'] = _g / _n if _g is not None else _g"])
         R.ob("T-live", "FitBase.get_result_dict:gof/ndf", ok, (f.file, f.lineno), "gof/ndf must be the quotient of the same two numbers (the goodness of fit and the ndf written to the dictionary)")
-        R.ob("T-live", "FitBase.get_result_dict:parameter_errors", "for _pn, _pe in zip(self.parameter_names, self.parameter_errors): _parameter_errors[_pn] = _pe" in src
-             and "_result_dict['parameter_errors'] = _parameter_errors" in src, (f.file, f.lineno), "parameter_errors must map each name to the uncertainty at the same position")
-        R.ob("T-live", "FitBase.get_result_dict:asymmetric", "for _pn, _ape in zip(self.parameter_names, _asymm_errs)" in src, (f.file, f.lineno), "asymmetric errors must be keyed by the name at the same position")
+        # (the canonical form writes a dictionary filled in a loop over zip(names, values) as OrderedDict(zip(names, values)))
+        R.ob("T-live", "FitBase.get_result_dict:parameter_errors", common.like_any(src, "_result_dict['parameter_errors'] = OrderedDict(zip(self.parameter_names, self.parameter_errors))",
+                                                                                   "_result_dict['parameter_errors'] = dict(zip(self.parameter_names, self.parameter_errors))"),
+             (f.file, f.lineno), "parameter_errors must map each name to the uncertainty at the same position")
+        R.ob("T-live", "FitBase.get_result_dict:asymmetric", common.like_any(src, ["_a = OrderedDict(zip(self.parameter_names, _a))", "_result_dict['asymmetric_parameter_errors'] = _a"],
+                                                                            ["_a = dict(zip(self.parameter_names, _a))", "_result_dict['asymmetric_parameter_errors'] = _a"]),
+             (f.file, f.lineno), "asymmetric errors must be keyed by the name at the same position")
         f = get_func(p, "FitBase", "_report_fit_results")
         src = _txt(f.node)
         fmt = [{k.arg: _txt(k.value) for k in c.keywords if k.arg} for c in ast.walk(f.node) if isinstance(c, ast.Call) and isinstance(c.func, ast.Attribute) and c.func.attr == "get_formatted"]
@@ -161,6 +165,23 @@ def run(eng, R):
         for k, ok in checks.items():
             R.ob("T-live", "FitBase._report_fit_results:%s" % k, ok, (f.file, f.lineno), "the report must print %s from the live fit" % k)
         f = get_func(p, "FitYamlWriter", "_get_preface_comment")
+        # a local that names the written fit (`_fit = self._kafe_object`, taken once - possibly before the call of the base class, where the canonical form keeps it)
+        # is read as that field: the rules below are about *which object's* numbers are written
+        import copy as _copy
+        fnode = _copy.deepcopy(f.node)
+        objs = [a for a in ast.walk(fnode) if isinstance(a, ast.Assign) and len(a.targets) == 1 and isinstance(a.targets[0], ast.Name) and _txt(a.value) == "self._kafe_object"]
+        for a in objs:
+            nm = a.targets[0].id
+            if sum(1 for x in ast.walk(fnode) if isinstance(x, ast.Name) and x.id == nm and isinstance(x.ctx, ast.Store)) == 1:
+                for x in ast.walk(fnode):
+                    for fld, val in ast.iter_fields(x):
+                        if isinstance(val, ast.Name) and val.id == nm and isinstance(val.ctx, ast.Load):
+                            setattr(x, fld, ast.Attribute(value=ast.Name(id="self", ctx=ast.Load()), attr="_kafe_object", ctx=ast.Load()))
+                        elif isinstance(val, list):
+                            for i_, v_ in enumerate(val):
+                                if isinstance(v_, ast.Name) and v_.id == nm and isinstance(v_.ctx, ast.Load):
+                                    val[i_] = ast.Attribute(value=ast.Name(id="self", ctx=ast.Load()), attr="_kafe_object", ctx=ast.Load())
+        f = type(f)(f.name, f.cls, f.module, fnode, f.kind, f.prop)
         src = _txt(f.node)
         gc = [c for c in ast.walk(f.node) if isinstance(c, ast.Call) and isinstance(c.func, ast.Name) and c.func.id == "get_compact_representation"]
         slot = {"names": ("parameter_names", 0), "values": ("parameter_values", 1), "errors": ("parameter_errors", 2), "correlations": ("parameter_cor_mat", 3)}
